@@ -1,8 +1,12 @@
 package main
 
 import (
+	"fmt"
 	"go/token"
 	"go/types"
+	"os"
+	"path/filepath"
+	"regexp"
 	"strconv"
 	"strings"
 
@@ -928,5 +932,91 @@ func ruleMapElementPath(c *Ctx, rule string) {
 	}
 	c.Check(ok, rule, FnName(cf)+": segments of a map element", p.Pos(cf.Pos()), "the segment list is strings.Split(name, \".\") (inside the constructor or at its call sites)", why)
 	c.CallSites(n)
+	c.Floor(rule, 1)
+}
+
+// ruleDatetimeTokenWS: the DATETIME token of the grammar is 'datetime(' WS* <RFC3339> WS* ')' with WS one of
+// blank, tab, newline, carriage return.  Whatever the decoder does with the token text (a regular expression,
+// trimming, slicing), for every placement of those white-space characters the text it hands to time.Parse is the
+// timestamp itself — decided by constant propagation through the decoder for a set of token texts.
+func ruleDatetimeTokenWS(c *Ctx, rule string) {
+	p := c.P
+	fn := p.SSAFunc(p.Func("zitiql", "ParseZqlDatetime"))
+	name := FnName(fn)
+	c.Analysed(name)
+	timeParse := p.ExtFunc("time", "Parse")
+	g4, err := os.ReadFile(filepath.Join(p.Root, "zitiql", "ZitiQl.g4"))
+	if err != nil {
+		c.Undecided(rule, "zitiql/ZitiQl.g4", "-", err.Error())
+		return
+	}
+	// the white-space class of the grammar
+	m := regexp.MustCompile(`(?m)^WS\s*:\s*\[([^\]]*)\]\s*;`).FindSubmatch(g4)
+	if m == nil {
+		c.Undecided(rule, "zitiql/ZitiQl.g4: WS", "-", "the WS rule is no longer a character set")
+		return
+	}
+	var ws []string
+	body := string(m[1])
+	for i := 0; i < len(body); i++ {
+		ch := string(body[i])
+		if body[i] == '\\' && i+1 < len(body) {
+			i++
+			switch body[i] {
+			case 'n':
+				ch = "\n"
+			case 't':
+				ch = "\t"
+			case 'r':
+				ch = "\r"
+			case 'f':
+				ch = "\f"
+			default:
+				ch = string(body[i])
+			}
+		}
+		ws = append(ws, ch)
+	}
+	if !regexp.MustCompile(`(?m)^DATETIME\s*:\s*'datetime\('\s*WS\*\s*RFC3339_DATE_TIME\s*WS\*\s*'\)'\s*;`).Match(g4) {
+		c.Undecided(rule, "zitiql/ZitiQl.g4: DATETIME", "-", "the DATETIME token is no longer 'datetime(' WS* RFC3339_DATE_TIME WS* ')'")
+		return
+	}
+	const ts = "2021-02-03T04:05:06Z"
+	texts := []string{"datetime(" + ts + ")"}
+	for _, w := range ws {
+		texts = append(texts, "datetime("+w+ts+")", "datetime("+ts+w+")", "datetime("+w+w+ts+w+")")
+	}
+	texts = append(texts, "datetime("+strings.Join(ws, "")+ts+strings.Join(ws, "")+")")
+	ok, why, undecided := true, "", ""
+	for _, text := range texts {
+		oracle := func(v ssa.Value) (AV, bool) {
+			if prm, isPrm := v.(*ssa.Parameter); isPrm && len(fn.Params) > 0 && prm == fn.Params[0] {
+				return avStr(text), true
+			}
+			return AV{}, false
+		}
+		evs, derr := DecideCalls(fn, oracle, func(ci ssa.CallInstruction) bool { return isCallTo(ci, timeParse) })
+		if derr != "" {
+			undecided = fmt.Sprintf("token text %q: %s", text, derr)
+			continue
+		}
+		if len(evs) != 1 {
+			ok, why = false, fmt.Sprintf("for the token text %q (white space where the grammar allows it) the decoder does not reach time.Parse: the literal is rejected although the query is a re-spelling of a valid one", text)
+			continue
+		}
+		got, isS := avString(evs[0].Args[len(evs[0].Args)-1])
+		if !isS {
+			undecided = fmt.Sprintf("token text %q: the text handed to time.Parse is not decided", text)
+			continue
+		}
+		if got != ts {
+			ok, why = false, fmt.Sprintf("for the token text %q the decoder hands %q to time.Parse instead of the timestamp %q: white space the grammar allows inside datetime( ) makes the literal unparsable", text, got, ts)
+		}
+	}
+	if ok && undecided != "" {
+		c.Undecided(rule, name, p.Pos(fn.Pos()), "the decoder could not be evaluated by constant propagation: "+undecided)
+		return
+	}
+	c.Check(ok, rule, name, p.Pos(fn.Pos()), fmt.Sprintf("for %d token texts covering every white-space character of the grammar before and after the timestamp, time.Parse receives exactly the timestamp", len(texts)), why)
 	c.Floor(rule, 1)
 }
